@@ -11,6 +11,7 @@ EXPLANATION = (
     "the level table read at that state; V7 in matching the only state change is under the equality of a candidate with the quoted word, and (SK-FRESH) the candidate arrays compared are reset in every iteration. "
     "FF/TC/RP/LOOKUP (shared with C11): the command text that reaches the automaton is the one of the definition chosen for the target shell, in every position of the grammar. "
     "NOT decided: what the user's command prints; process substitution / readarray semantics of a real bash. One open finding: when the unmatched word is the last complete one the walk is left without failing."
+    " SK-SUB S7/S8, LEVEL and ARENA-IMMUT are shared with C01/C02: a command inside `||`, also inside a word, keeps the level of its own branch."
 )
 ASSUMPTIONS = [
     "vlib/bashparse.py parses the bash subset the templates use; nothing is executed",
